@@ -3,6 +3,7 @@ package schema
 import (
 	"encoding/json"
 	"fmt"
+	"maps"
 	"reflect"
 	"strings"
 )
@@ -464,12 +465,15 @@ func (o *ObjectSchema) applySubObjectDefaultValues(propertyID string, property *
 		return
 	}
 	data := map[string]any{}
-	if _, ok := rawData[propertyID]; ok {
-		data = rawData[propertyID].(map[string]any)
+	if existing, ok := rawData[propertyID].(map[string]any); ok {
+		// The existing value may be the shared, decoded default of the property: work on a copy.
+		data = maps.Clone(existing)
 	}
 	subObjectDefaults := subObject.GetDefaults()
 	for k, v := range subObjectDefaults {
-		data[k] = v
+		if _, isSet := data[k]; !isSet {
+			data[k] = v
+		}
 	}
 	for subPropertyID, subProperty := range subObject.Properties() {
 		o.applySubObjectDefaultValues(subPropertyID, subProperty, data)
